@@ -769,3 +769,243 @@ package kapacitor
 //@   requires g != nil
 //@   modifies nothing
 //@   ensures !has(fields, g.bc.field) ==> result1 != nil
+
+// ---- reduce lifecycle (batch): "over exactly that batch's field values ... empty batches emit
+// nothing unless the function is defined on empty input"
+//@ func (*influxqlGroup).realizeReduceContextFromFields
+//@   trusted
+//@   modifies g.rc
+//@   ensures result == nil ==> g.rc != nil
+//@   ensures result != nil ==> g.rc == old(g.rc)
+//@ func (*influxqlGroup).realizeReduceContext
+//@   trusted
+//@   modifies g.rc
+//@   ensures result == nil ==> g.rc != nil
+//@   ensures result != nil ==> g.rc == old(g.rc)
+// The typed contexts keep their running state outside the modelled memory.
+//@ func (reduceContext).AggregatePoint
+//@   trusted
+//@   modifies nothing
+//@ func (reduceContext).EmitPoint
+//@   trusted
+//@   modifies nothing
+//@ func (reduceContext).EmitBatch
+//@   trusted
+//@   modifies nothing
+//@ func =(github.com/influxdata/kapacitor/pipeline.Node).Provides
+//@   trusted
+//@   pure
+
+// A new batch starts from nothing: no context (so no value of an earlier batch), size 0, and
+// the batch's time as the time results are stamped with.
+//@ func (*influxqlGroup).BeginBatch
+//@   props C11
+//@   requires g != nil && begin != nil
+//@   modifies g.begin, g.batchSize, g.bc, g.rc
+//@   ensures g.bc.as == old(g.bc.as) && g.bc.field == old(g.bc.field) && g.bc.name == old(g.bc.name) && g.bc.groupInfo == old(g.bc.groupInfo) && g.bc.pointTimes == old(g.bc.pointTimes)
+//@   ensures g.begin == begin && g.batchSize == 0 && g.bc.time == begin.Time() && g.rc == nil && result0 == nil && result1 == nil
+
+// Every batch point is aggregated into the batch's context exactly once (or skipped, without
+// being counted, when no context can be made for its field); nothing is emitted per point.
+//@ func (*influxqlGroup).BatchPoint
+//@   props C11 C05
+//@   requires g != nil && g.n != nil && g.n.diag != nil && bp != nil && g.begin != nil
+//@   ensures result0 == nil && result1 == nil
+//@   ensures g.rc != nil ==> g.batchSize == old(g.batchSize) + 1 && called(AggregatePoint) && callarg(AggregatePoint, 1) == bp && callarg(AggregatePoint, 0) == g.begin.Name()
+//@   ensures g.rc != nil && old(g.rc) != nil ==> g.rc == old(g.rc)
+//@   ensures g.rc == nil ==> g.batchSize == old(g.batchSize) && !called(AggregatePoint)
+
+// emit asks the context for a point on a stream edge and for a batch on a batch edge.
+//@ func (*InfluxQLNode).emit
+//@   props C11
+//@   requires n != nil && n.node.Node != nil && context != nil
+//@   modifies nothing
+//@   ensures n.node.Node.Provides() == pipeline.StreamEdge ==> called(EmitPoint) && result0 == callresult(EmitPoint, 0) && result1 == callresult(EmitPoint, 1)
+//@   ensures n.node.Node.Provides() == pipeline.BatchEdge ==> called(EmitBatch) && result0 == callresult(EmitBatch, 0) && result1 == nil
+//@   ensures n.node.Node.Provides() != pipeline.StreamEdge && n.node.Node.Provides() != pipeline.BatchEdge ==> result0 == nil && result1 == nil
+
+// End of batch: an empty batch emits nothing unless the function is defined on empty input;
+// otherwise exactly what the batch's context emits.
+//@ func (*influxqlGroup).EndBatch
+//@   props C11 C05
+//@   requires g != nil && g.n != nil && g.n.n != nil && g.n.diag != nil && g.n.node.Node != nil
+//@   ensures [empty-emits-nothing] old(g.batchSize) == 0 && !old(g.n.n.ReduceCreater.IsEmptyOK) ==> result0 == nil && result1 == nil && !called(emit)
+//@   ensures [emits-this-batch] (old(g.batchSize) != 0 || old(g.n.n.ReduceCreater.IsEmptyOK)) && old(g.rc) != nil ==> called(emit) && callarg(emit, 0) == old(g.rc)
+//@   ensures [result-is-emitted] called(emit) && callresult(emit, 1) == nil ==> result0 == callresult(emit, 0) && result1 == nil
+//@   ensures [emit-error-dropped] called(emit) && callresult(emit, 1) != nil ==> result0 == nil && result1 == nil
+
+// ---- reduce lifecycle (stream): a run of equal-time points is one window; it is emitted when
+// time advances, and the point that advanced time opens the next run.
+//@ func (*influxqlGroup).aggregatePoint
+//@   trusted
+//@   modifies g.rc
+//@ func (*influxqlGroup).Point
+//@   props C11 C05
+//@   requires g != nil && g.n != nil && g.n.diag != nil && g.n.node.Node != nil && p != nil
+//@   ensures [same-time-accumulates] p.Time() == old(g.bc.time) ==> result0 == nil && !called(emit) && g.bc.time == old(g.bc.time)
+//@   ensures [time-advance-emits] p.Time() != old(g.bc.time) && old(g.rc) != nil ==> called(emit) && callarg(emit, 0) == old(g.rc)
+//@       && (callresult(emit, 1) == nil ==> result0 == callresult(emit, 0))
+//@   ensures [nothing-to-emit] p.Time() != old(g.bc.time) && old(g.rc) == nil ==> !called(emit) && result0 == nil
+//@   ensures [next-run-starts-at-p] p.Time() != old(g.bc.time) ==> g.bc.time == p.Time() && g.bc.name == p.Name()
+//@   ensures [p-aggregated] called(aggregatePoint) && callarg(aggregatePoint, 0) == p && result1 == nil
+
+// ---------------------------------------------------------------- influxql.gen.go (C11)
+// The typed reduce contexts (generated code, one copy per field type; the contracts below are the
+// same schema written out per type). What is handed to the InfluxQL reducer for a point, and how
+// the reducer's answer becomes the emitted point: "typed as documented, stamped with the batch end
+// time (or the selected point's time when point times are requested), named by as() and carrying
+// the group's tags". The reducers themselves (github.com/influxdata/influxdb/query) are outside
+// the repository: their mathematics is not under contract.
+//
+// Assumed of a reducer that is used as a simple selector (ghost flag `selector` on the emitter
+// value): the points it emits carry the [tags, fields] pair convert*Point attached to its inputs.
+//@ func =(github.com/influxdata/influxdb/query.Tags).KeyValues
+//@   trusted
+//@   pure
+//@ func =github.com/influxdata/influxdb/query.NewTags
+//@   trusted
+//@   pure
+//@ func =(github.com/influxdata/kapacitor/models.Fields).Copy
+//@   trusted
+//@   modifies nothing
+//@   ensures result != nil && fresh(result)
+
+//@ func =(github.com/influxdata/influxdb/query.FloatPointEmitter).Emit
+//@   trusted
+//@   modifies nothing
+//@   ensures gfi(recv, selector, bool) ==> forall k int :: 0 <= k && k < len(result) ==> len(result[k].Aux) >= 2 && typeis(result[k].Aux[0], models.Tags) && typeis(result[k].Aux[1], models.Fields)
+//@ func floatPopulateAuxFieldsAndTags
+//@   trusted
+//@   modifies ap.Aux
+
+// The reducer's input for a point: the point's value of the aggregated field, its time in
+// nanoseconds, the measurement name; an error (never a panic) when the field is missing or is
+// not a float64.
+//@ func convertFloatPoint
+//@   props C11 C05
+//@   requires p != nil
+//@   ensures [missing-field] !has(p.Fields(), field) ==> result0 == nil && result1 != nil
+//@   ensures [wrong-type] has(p.Fields(), field) && !typeis(p.Fields()[field], float64) ==> result0 == nil && result1 != nil
+//@   ensures [value-time-name] has(p.Fields(), field) && typeis(p.Fields()[field], float64) ==> result1 == nil && result0 != nil && fresh(result0)
+//@       && result0.Value == as(p.Fields()[field], float64) && result0.Time == p.Time().UnixNano() && result0.Name == name
+
+// The emitted stream point: none unless the reducer answers with exactly one point; stamped with
+// that point's own time only when point times are requested and it has one, else with the
+// window's time; for aggregations (not selectors) one field, named as(), holding the reducer's
+// value as a float64, with the group's tags and dimensions.
+//@ func (*floatPointEmitter).EmitPoint
+//@   props C11 C05
+//@   requires e != nil && e.emitter != nil && (e.isSimpleSelector ==> gfi(e.emitter, selector, bool))
+//@   ensures [no-single-answer] len(callresult(Emit, 0)) != 1 ==> result0 == nil && result1 == nil
+//@   ensures [point-built] len(callresult(Emit, 0)) == 1 ==> result1 == nil && called(NewPointMessage) && result0 == callresult(NewPointMessage, 0)
+//@       && callarg(NewPointMessage, 0) == e.name && callarg(NewPointMessage, 3) == e.groupInfo.Dimensions
+//@   ensures [time-selection] len(callresult(Emit, 0)) == 1 ==> callarg(NewPointMessage, 6) ==
+//@       ite(e.pointTimes && callresult(Emit, 0)[0].Time != query.ZeroTime, time.Unix(0, callresult(Emit, 0)[0].Time), e.time)
+//@   ensures [aggregate-field-and-tags] len(callresult(Emit, 0)) == 1 && !e.isSimpleSelector ==> callarg(NewPointMessage, 5) == e.groupInfo.Tags
+//@       && len(callarg(NewPointMessage, 4)) == 1 && has(callarg(NewPointMessage, 4), e.as)
+//@       && typeis(callarg(NewPointMessage, 4)[e.as], float64) && as(callarg(NewPointMessage, 4)[e.as], float64) == callresult(Emit, 0)[0].Value
+
+//@ func =(github.com/influxdata/influxdb/query.IntegerPointEmitter).Emit
+//@   trusted
+//@   modifies nothing
+//@   ensures gfi(recv, selector, bool) ==> forall k int :: 0 <= k && k < len(result) ==> len(result[k].Aux) >= 2 && typeis(result[k].Aux[0], models.Tags) && typeis(result[k].Aux[1], models.Fields)
+//@ func integerPopulateAuxFieldsAndTags
+//@   trusted
+//@   modifies ap.Aux
+
+// The reducer's input for a point: the point's value of the aggregated field, its time in
+// nanoseconds, the measurement name; an error (never a panic) when the field is missing or is
+// not a int64.
+//@ func convertIntegerPoint
+//@   props C11 C05
+//@   requires p != nil
+//@   ensures [missing-field] !has(p.Fields(), field) ==> result0 == nil && result1 != nil
+//@   ensures [wrong-type] has(p.Fields(), field) && !typeis(p.Fields()[field], int64) ==> result0 == nil && result1 != nil
+//@   ensures [value-time-name] has(p.Fields(), field) && typeis(p.Fields()[field], int64) ==> result1 == nil && result0 != nil && fresh(result0)
+//@       && result0.Value == as(p.Fields()[field], int64) && result0.Time == p.Time().UnixNano() && result0.Name == name
+
+// The emitted stream point: none unless the reducer answers with exactly one point; stamped with
+// that point's own time only when point times are requested and it has one, else with the
+// window's time; for aggregations (not selectors) one field, named as(), holding the reducer's
+// value as a int64, with the group's tags and dimensions.
+//@ func (*integerPointEmitter).EmitPoint
+//@   props C11 C05
+//@   requires e != nil && e.emitter != nil && (e.isSimpleSelector ==> gfi(e.emitter, selector, bool))
+//@   ensures [no-single-answer] len(callresult(Emit, 0)) != 1 ==> result0 == nil && result1 == nil
+//@   ensures [point-built] len(callresult(Emit, 0)) == 1 ==> result1 == nil && called(NewPointMessage) && result0 == callresult(NewPointMessage, 0)
+//@       && callarg(NewPointMessage, 0) == e.name && callarg(NewPointMessage, 3) == e.groupInfo.Dimensions
+//@   ensures [time-selection] len(callresult(Emit, 0)) == 1 ==> callarg(NewPointMessage, 6) ==
+//@       ite(e.pointTimes && callresult(Emit, 0)[0].Time != query.ZeroTime, time.Unix(0, callresult(Emit, 0)[0].Time), e.time)
+//@   ensures [aggregate-field-and-tags] len(callresult(Emit, 0)) == 1 && !e.isSimpleSelector ==> callarg(NewPointMessage, 5) == e.groupInfo.Tags
+//@       && len(callarg(NewPointMessage, 4)) == 1 && has(callarg(NewPointMessage, 4), e.as)
+//@       && typeis(callarg(NewPointMessage, 4)[e.as], int64) && as(callarg(NewPointMessage, 4)[e.as], int64) == callresult(Emit, 0)[0].Value
+
+//@ func =(github.com/influxdata/influxdb/query.StringPointEmitter).Emit
+//@   trusted
+//@   modifies nothing
+//@   ensures gfi(recv, selector, bool) ==> forall k int :: 0 <= k && k < len(result) ==> len(result[k].Aux) >= 2 && typeis(result[k].Aux[0], models.Tags) && typeis(result[k].Aux[1], models.Fields)
+//@ func stringPopulateAuxFieldsAndTags
+//@   trusted
+//@   modifies ap.Aux
+
+// The reducer's input for a point: the point's value of the aggregated field, its time in
+// nanoseconds, the measurement name; an error (never a panic) when the field is missing or is
+// not a string.
+//@ func convertStringPoint
+//@   props C11 C05
+//@   requires p != nil
+//@   ensures [missing-field] !has(p.Fields(), field) ==> result0 == nil && result1 != nil
+//@   ensures [wrong-type] has(p.Fields(), field) && !typeis(p.Fields()[field], string) ==> result0 == nil && result1 != nil
+//@   ensures [value-time-name] has(p.Fields(), field) && typeis(p.Fields()[field], string) ==> result1 == nil && result0 != nil && fresh(result0)
+//@       && result0.Value == as(p.Fields()[field], string) && result0.Time == p.Time().UnixNano() && result0.Name == name
+
+// The emitted stream point: none unless the reducer answers with exactly one point; stamped with
+// that point's own time only when point times are requested and it has one, else with the
+// window's time; for aggregations (not selectors) one field, named as(), holding the reducer's
+// value as a string, with the group's tags and dimensions.
+//@ func (*stringPointEmitter).EmitPoint
+//@   props C11 C05
+//@   requires e != nil && e.emitter != nil && (e.isSimpleSelector ==> gfi(e.emitter, selector, bool))
+//@   ensures [no-single-answer] len(callresult(Emit, 0)) != 1 ==> result0 == nil && result1 == nil
+//@   ensures [point-built] len(callresult(Emit, 0)) == 1 ==> result1 == nil && called(NewPointMessage) && result0 == callresult(NewPointMessage, 0)
+//@       && callarg(NewPointMessage, 0) == e.name && callarg(NewPointMessage, 3) == e.groupInfo.Dimensions
+//@   ensures [time-selection] len(callresult(Emit, 0)) == 1 ==> callarg(NewPointMessage, 6) ==
+//@       ite(e.pointTimes && callresult(Emit, 0)[0].Time != query.ZeroTime, time.Unix(0, callresult(Emit, 0)[0].Time), e.time)
+//@   ensures [aggregate-field-and-tags] len(callresult(Emit, 0)) == 1 && !e.isSimpleSelector ==> callarg(NewPointMessage, 5) == e.groupInfo.Tags
+//@       && len(callarg(NewPointMessage, 4)) == 1 && has(callarg(NewPointMessage, 4), e.as)
+//@       && typeis(callarg(NewPointMessage, 4)[e.as], string) && as(callarg(NewPointMessage, 4)[e.as], string) == callresult(Emit, 0)[0].Value
+
+//@ func =(github.com/influxdata/influxdb/query.BooleanPointEmitter).Emit
+//@   trusted
+//@   modifies nothing
+//@   ensures gfi(recv, selector, bool) ==> forall k int :: 0 <= k && k < len(result) ==> len(result[k].Aux) >= 2 && typeis(result[k].Aux[0], models.Tags) && typeis(result[k].Aux[1], models.Fields)
+//@ func booleanPopulateAuxFieldsAndTags
+//@   trusted
+//@   modifies ap.Aux
+
+// The reducer's input for a point: the point's value of the aggregated field, its time in
+// nanoseconds, the measurement name; an error (never a panic) when the field is missing or is
+// not a bool.
+//@ func convertBooleanPoint
+//@   props C11 C05
+//@   requires p != nil
+//@   ensures [missing-field] !has(p.Fields(), field) ==> result0 == nil && result1 != nil
+//@   ensures [wrong-type] has(p.Fields(), field) && !typeis(p.Fields()[field], bool) ==> result0 == nil && result1 != nil
+//@   ensures [value-time-name] has(p.Fields(), field) && typeis(p.Fields()[field], bool) ==> result1 == nil && result0 != nil && fresh(result0)
+//@       && result0.Value == as(p.Fields()[field], bool) && result0.Time == p.Time().UnixNano() && result0.Name == name
+
+// The emitted stream point: none unless the reducer answers with exactly one point; stamped with
+// that point's own time only when point times are requested and it has one, else with the
+// window's time; for aggregations (not selectors) one field, named as(), holding the reducer's
+// value as a bool, with the group's tags and dimensions.
+//@ func (*booleanPointEmitter).EmitPoint
+//@   props C11 C05
+//@   requires e != nil && e.emitter != nil && (e.isSimpleSelector ==> gfi(e.emitter, selector, bool))
+//@   ensures [no-single-answer] len(callresult(Emit, 0)) != 1 ==> result0 == nil && result1 == nil
+//@   ensures [point-built] len(callresult(Emit, 0)) == 1 ==> result1 == nil && called(NewPointMessage) && result0 == callresult(NewPointMessage, 0)
+//@       && callarg(NewPointMessage, 0) == e.name && callarg(NewPointMessage, 3) == e.groupInfo.Dimensions
+//@   ensures [time-selection] len(callresult(Emit, 0)) == 1 ==> callarg(NewPointMessage, 6) ==
+//@       ite(e.pointTimes && callresult(Emit, 0)[0].Time != query.ZeroTime, time.Unix(0, callresult(Emit, 0)[0].Time), e.time)
+//@   ensures [aggregate-field-and-tags] len(callresult(Emit, 0)) == 1 && !e.isSimpleSelector ==> callarg(NewPointMessage, 5) == e.groupInfo.Tags
+//@       && len(callarg(NewPointMessage, 4)) == 1 && has(callarg(NewPointMessage, 4), e.as)
+//@       && typeis(callarg(NewPointMessage, 4)[e.as], bool) && as(callarg(NewPointMessage, 4)[e.as], bool) == callresult(Emit, 0)[0].Value
